@@ -429,6 +429,28 @@ def json_identical(x, y):
     return land(_wrap(te), _wrap(ve))
 
 
+def same_key_order(x, y):
+    """Do the objects of two JSON documents list their keys in the same order
+    (the text json.dumps produces without sort_keys)?  Concrete bool."""
+    if isinstance(x, dict):
+        if not isinstance(y, dict) or list(x.keys()) != list(y.keys()):
+            return False
+        return all(same_key_order(x[k], y[k]) for k in x)
+    if isinstance(x, (list, tuple)):
+        if not isinstance(y, (list, tuple)) or len(x) != len(y):
+            return False
+        return all(same_key_order(a, b) for a, b in zip(x, y))
+    return True
+
+
+def unchanged(x, snap):
+    """x still serialises to the JSON text it had when snap = snapshot(x) was
+    taken: same document (json_identical) with the keys in the same order."""
+    if not same_key_order(x, snap):
+        return False
+    return json_identical(x, snap)
+
+
 def _wrap(t):
     if isinstance(t, z3.ExprRef):
         if z3.is_true(t):
